@@ -88,6 +88,13 @@ func buildIntrinsics() map[string]intrinsic {
 	m["verif:verifNondetI16"] = nd("i16", 16)
 	m["verif:verifNondetI8"] = nd("i8", 8)
 	m["verif:verifNondetBool"] = nd("bool", 1)
+	m["verif:verifNondetIntRange"] = func(p *Path, fn *ssa.Function, a []Value, pos token.Pos, caller *ssa.Function) []Value {
+		t := p.newNondet(p.strArg(a[0], "nondet label"), "i64", 64)
+		c := p.ctx
+		p.assume(c.SLE(p.intOf(a[1]).T, t))
+		p.assume(c.SLE(t, p.intOf(a[2]).T))
+		return []Value{IntV{T: t}}
+	}
 	m["verif:verifNondetBytes"] = func(p *Path, fn *ssa.Function, a []Value, pos token.Pos, caller *ssa.Function) []Value {
 		label := p.strArg(a[0], "nondet label")
 		n := int(p.concretize(p.intOf(a[1]).T, 4096, "nondet bytes length"))
